@@ -154,8 +154,10 @@ class Engine:
         self.forced_choices = {}
         self.steps = 0
         self.max_steps = 400_000
-        self.t_start = time.time()
-        self.wall_budget = 150.0  # seconds per harness; exceeding it is 'undecided', never a violation
+        # budget in CPU seconds of this harness process (not wall clock: verdicts must not flip when all cores are busy);
+        # exceeding it is 'undecided', never a violation
+        self.t_start = time.process_time()
+        self.wall_budget = 450.0
 
     # ---- fresh symbols (deterministic names per path position) -------------------------------------
     def fresh(self, base, sort):
@@ -229,8 +231,8 @@ class Engine:
             return False
         k = len(self.decisions)
         self._sync_distinct()
-        if time.time() - self.t_start > self.wall_budget:
-            raise OutOfReach(f"{self.name}: wall-clock budget of {self.wall_budget:.0f}s exhausted")
+        if time.process_time() - self.t_start > self.wall_budget:
+            raise OutOfReach(f"{self.name}: CPU-time budget of {self.wall_budget:.0f}s exhausted")
         if k < len(self.prefix):
             d = self.prefix[k]
         else:
